@@ -17,13 +17,13 @@ CHECKS = {
 CHECKS.update({
  'C05': dict(cat='model_checking', ref='4/C05', tech='symbolic execution of SolverMixin.solve/iter_periods/solve_period and the period locators with z3 proxies (symbolic span labels, start/end, per-period values and faults), joint-path comparison with a twin driven by single-period solves',
    text='Bounded symbolic model checking of multi-period solve(): for span types list/range/ndarray/str (length 0..3, 4 thorough) every joint path of solve() and of an explicit loop of solve_t calls over the range computed from the statement is explored, with start/end and list/ndarray labels as unconstrained integers (present, repeated or absent), every Float64 value and a symbolic fault kind per period and pass; the return triple, call order, statuses, iterations and every cell must agree, periods never attempted must be bit-identical to the start.',
-   note='Trusted: as C02 plus the first-match reading of explicit labels on list spans with repeated labels (distinct labels assumed for ndarray spans with explicit labels, where the locator itself refuses duplicates). pandas spans outside the claim.'),
+   note='Trusted: as C02 plus the first-match reading of explicit labels on list spans with repeated labels (on NumPy-array spans an explicit label matching several positions must raise KeyError); histories: models solved before on another span, then reindexed / copied. pandas spans outside the claim.'),
  'C08': dict(cat='model_checking', ref='4/C08', tech='symbolic execution of BaseLinker.__init__/solve_t/evaluate_t with z3 proxies, joint-path comparison against a reference written from the statement and against the bare-model twin (wrapper law)',
    text='Bounded symbolic model checking of the linker: 1..2 (3 thorough) scripted submodels, 0..1 linker check variables, every ordered sub-selection and unknown ids, max_iter 0..2 (3), symbolic finite values per iteration, any tol, symbolic min_iter and offset; call order, convergence verdict, statuses and iteration counts on linker and submodels, untouched unselected submodels, KeyError/IndexError/InitialisationError, LAGS/LEADS maxima over symbolic integers and the single-model wrapper law are decided per joint path.',
    note='Trusted: as C02; stand-in also installed for fsic.core.linkers.np. Finite data and min_iter <= max_iter assumed (the linker has no errors policy and solve_t does not validate min_iter; the statement presumes both).'),
  'C17': dict(cat='model_checking', ref='4/C17', tech='symbolic twin execution (TracerMixin model with trace=..., plain model, tracer with tracing off) on the C02/C06 harness; z3 equality of cells and of trace snapshots per joint path',
    text='Bounded symbolic model checking that tracing is observationally neutral and faithful: for every configuration of the C06 lattice (max_iter<=2/3, faults, policies) and trace in {True, [name], name}, entry solve_t/solve_period, every joint path of traced, untraced and trace-off runs has identical outcome/status/iterations/cells, the trace labels are start, before, 0, 1..k[, end] and snapshot j is z3-equal to the values after pass j; no trace is written elsewhere or with tracing off.',
-   note='Trusted: as C06; Trace.append/np.hstack run for real on object arrays. Repeated solves, reset=True and multi-period solve() with tracing are outside the claim.'),
+   note='Trusted: as C06; Trace.append/np.hstack run for real on object arrays. Histories (traced solves before, then re-bound / copied / reindexed; a failed traced solve of another period), run-time variables and method-named variables included. reset=True outside the claim.'),
 })
 
 CHECKS.update({
@@ -56,7 +56,7 @@ CHECKS.update({
 CHECKS.update({
  'C10': dict(cat='model_checking', ref='4/C10', tech='symbolic execution of VectorContainer.__getitem__/__setitem__/_resolve_period_slice/_locate_period_in_span(+fallback) with symbolic span labels, requested labels, step and value; per-path comparison with a first-match position map',
    text='Bounded symbolic model checking of label addressing: for list / object-ndarray (fallback locator) spans of symbolic integer labels, range, int64/str ndarrays, str and mixed-hashable lists (length 1..3, 5 thorough) every path over the equality pattern of labels and requests is explored; get/set by label, inclusive label slices with symbolic step 1..n+1 and open ends, KeyError iff absent, frame of writes, and write-then-read agreement across attribute/key/position/label/slice paths are decided per path on symbolic cells.',
-   note='Trusted: symx proxies through real NumPy object arrays. pandas index types outside; ndarray spans assumed duplicate-free (the locator refuses duplicates).'),
+   note='Trusted: symx proxies through real NumPy object arrays. pandas index types outside. Histories (container shorter before / read / copied / re-bound) precede the symbolic step in a subset of configurations.'),
  'C12': dict(cat='model_checking', ref='4/C12', tech='symbolic execution of VectorContainer.reindex / BaseModel.reindex over symbolic old and new span labels (all equality patterns); concrete typed arrays with marker values compared per path with a position-map + fill-table oracle',
    text='Bounded symbolic model checking of reindex: old and new spans of 0..3 (4) symbolic integer labels each - z3 explores every equality pattern within and between them (overlap, disjoint, permuted, shrunk, extended, repeated) - crossed with float/int/bool/str/status/iterations series, fill_value / per-variable / unknown fills x strict, containers and solved or unsolved models; values of matching periods, fills of new periods, dtypes, order, lag/lead settings, attributes, unchanged original and KeyError under strict are asserted on every path.',
    note='Trusted: symx; the fill table mirrors NumPy casting of the fill to the variable dtype. pandas mixin reindex outside; independence of the result is only probed (C11 N/A).'),
@@ -65,7 +65,7 @@ CHECKS.update({
    note='Trusted: np.roll stand-in (ite over p mod n) and SArr slice assignment with symbolic bounds (Python clamping rules); eval runs on real NumPy object arrays. Expression dimension enumerated.'),
  'C18': dict(cat='model_checking', ref='4/C18', tech='symbolic twin execution: aliased model vs canonical twin over symbolic operands (values, positions, labels, slice bounds) for every enumerated alias map; z3 equality of all cells and storage-key comparison per path',
    text='For every acyclic alias map over 3 variables and up to 2 (3) alias names (many-to-one, chains, self-maps), each constructed under a 5 s watchdog, 12 operations (reads, whole/sequence/key/position/label/label-slice writes, label and slice reads, replace_values, an _evaluate that uses the alias, constructor keywords) are run through the alias and through the canonical name from the same symbolic state; outcomes, every cell and the set of storage keys must agree on every path.',
-   note='Honest note: alias topologies are enumerated; the solver decides the operand dimension only. to_dataframe(use_aliases) / PREFERRED_NAMES (pandas) outside the claim.'),
+   note='Honest note: alias topologies are enumerated; the solver decides the operand dimension only. Rejection of ambiguous PREFERRED_NAMES at construction is checked by enumeration; to_dataframe(use_aliases) (pandas) outside the claim.'),
 })
 
 CHECKS.update({
@@ -76,8 +76,8 @@ CHECKS.update({
 
 CHECKS.update({
  'C07': dict(cat='translation_validation', ref='4/C07', engine='symx+fir', tech="symbolic execution of the gfortran front-end IR (-fdump-tree-original) of the generated evaluate subroutine against the generated Python _evaluate over the same z3 arrays and canonical uninterpreted arithmetic with interpreted constants; LIA check of the index guards; replay on the machine code via gfortran -shared + ctypes",
-   text="Translation validation of the Fortran generator's evaluate routine: for every program of the common subset (bounded-exhaustive <=3 nodes, fixed multi-equation and 40-variable continuation-line programs, seeded samples) the source must compile and the compiler's own IR of evaluate is shown by z3 to leave every series equal to what the Python class computes, for ALL cells, positions t and span lengths (row r <-> NAMES[r-1], index = t+1, both spellings of t), with literals, integer division, index rewriting, row numbers and line wrapping all visible to the comparison; the IR's index guards accept exactly the feasible periods. The compiled solve_t/solve routines and the FortranEngine wrapper are NOT decided (outside the claim).",
-   note='Trusted: fir (parser of gfortran 12 GENERIC text; version-specific), IEEE-exact normalisations applied to both sides (commutativity, x+x=2x, sign motion, x**2=x*x, powi, symmetric max/min on non-NaN operands, |exp|=exp), finite data. Counterexamples replayed on real machine code at rtol 1e-12. solve_t/solve/wrapper outside (no f2py here; hundreds of lines of descriptor code each).'),
+   text="Translation validation of the Fortran generator's evaluate routine: for every program of the common subset (bounded-exhaustive <=3 nodes, fixed multi-equation and 40-variable continuation-line programs, seeded samples) the source must compile and the compiler's own IR of evaluate is shown by z3 to leave every series equal to what the Python class computes, for ALL cells, positions t and span lengths (row r <-> NAMES[r-1], index = t+1, both spellings of t), with literals, integer division, index rewriting, row numbers and line wrapping all visible to the comparison; the IR's index guards accept exactly the feasible periods. Second part: the generated solve_t SOURCE is parsed and executed symbolically (fsrc) under the real FortranEngine.solve_t wrapper on seven parser-built models (max_iter 0..2/3, symbolic tol, min_iter, offset, finite Float64 cells, both position spellings) and every joint path must agree with the C02 state machine on outcome, exception type, status, iterations and every cell. The multi-period solve routine is NOT decided.",
+   note='Trusted: fir (parser of gfortran 12 GENERIC text; version-specific), IEEE-exact normalisations applied to both sides (commutativity, x+x=2x, sign motion, x**2=x*x, powi, symmetric max/min on non-NaN operands, |exp|=exp), finite data. Counterexamples replayed on real machine code at rtol 1e-12. solve_t: the template SOURCE is interpreted (fsrc: the subset of Fortran the template uses; anything else ends inconclusive), not the IR of gfortran; counterexamples are replayed on the machine code through ctypes under the real wrapper, out-of-bounds subscripts on a -fcheck=bounds build in a child process. solve() / FortranEngine.solve() and non-finite data in the Fortran loop outside.'),
 })
 
 NOT_APPLICABLE = [
